@@ -503,9 +503,9 @@ def judge(sc, incs, broker):
             exp = [broker.logs[p][j][1] for j in range(lo, hi + 1)]
             if sc.get('keys'):
                 exp = [{'key': broker.logs[p][j][0], 'value': broker.logs[p][j][1]} for j in range(lo, hi + 1)]
+            from .fns import freeze
             got = o.value
-            got = list(got[1:]) if isinstance(got, tuple) and got and got[0] == 'L' else got
-            if got != exp:
+            if got != freeze(exp):
                 V.append(Violation('C09', 'C09.content', o.seq,
                                    'incarnation %d partition %d range %d..%d delivered %r, the log holds %r' % (i, p, lo, hi, got, exp),
                                    node_op='from_kafka_batched'))
